@@ -21,10 +21,10 @@ package ro
 //@   sync observers
 
 //@ func (*publishSubjectImpl).NextWithContext
-//@   props C01 C02 C10 C13 C09 C06 C11
+//@   props C01 C02 C10 C13 C09 C06 C11 C08
 //@   binds ctx value
 //@   scope ctx err mu observerIndex observers s status value
-//@   ensures [one-critical-section|C02,C10,C13,C06] count(lock.mu) == 1
+//@   ensures [one-critical-section|C08,C02,C10,C13,C06] count(lock.mu) == 1
 //@   inline (*publishSubjectImpl).broadcastNext
 //@   track observers.* elem.* hook.* call.NewNotification*
 //@   ensures [open-broadcasts-to-all|C01,C10,C09,C11,C08] atlock(status) == 0 ==> trace(observers.Range, elem.NextWithContext(ctx, value), observers.RangeEnd)
@@ -104,10 +104,10 @@ package ro
 //@   sync observers
 
 //@ func (*behaviorSubjectImpl).NextWithContext
-//@   props C01 C02 C10 C13 C09 C06 C11
+//@   props C01 C02 C10 C13 C09 C06 C11 C08
 //@   binds ctx value
 //@   scope ctx err last mu observerIndex observers s status value
-//@   ensures [one-critical-section|C02,C10,C13,C06] count(lock.mu) == 1
+//@   ensures [one-critical-section|C08,C02,C10,C13,C06] count(lock.mu) == 1
 //@   inline (*behaviorSubjectImpl).broadcastNext
 //@   track observers.* elem.* hook.* call.NewNotification*
 //@   ensures [open-stores-and-broadcasts|C01,C10,C09] atlock(status) == 0 ==> atunlock(last).A == ctx && atunlock(last).B == value && trace(observers.Range, elem.NextWithContext(ctx, value), observers.RangeEnd)
@@ -141,10 +141,10 @@ package ro
 //@   ensures [a-closed-subject-keeps-its-stored-terminal|C10,C09,C01] atlock(status) != 0 ==> atunlock(status) == atlock(status) && atunlock(err).A == atlock(err).A && atunlock(err).B == atlock(err).B && atunlock(last).A == atlock(last).A && atunlock(last).B == atlock(last).B
 
 //@ func (*behaviorSubjectImpl).SubscribeWithContext
-//@   props C01 C02 C03 C10 C11 C13 C14 C09 C06
+//@   props C01 C02 C03 C10 C11 C13 C14 C09 C06 C08 C07
 //@   binds subscriberCtx destination
 //@   scope destination err index last mu observerIndex observers s status subscriberCtx
-//@   ensures [one-critical-section|C02,C10,C11,C13,C09,C06] count(lock.mu) == 1 && heldat(mu, sub.ANY)
+//@   ensures [one-critical-section|C08,C07,C02,C10,C11,C13,C09,C06] count(lock.mu) == 1 && heldat(mu, sub.ANY)
 //@   alias sub=NewSubscriber()
 //@   track call.NewSubscriber observers.* NewSubscriber().*
 //@   ensures [open-replays-latest-then-registers|C01,C02,C03,C10,C14,C09,C06] atlock(status) == 0 ==> trace(call.NewSubscriber(destination), sub.NextWithContext(atlock(last).A, atlock(last).B), observers.Store(_, res(call.NewSubscriber)), sub.Add(_))
@@ -187,10 +187,10 @@ package ro
 //@   sync observers
 
 //@ func (*asyncSubjectImpl).NextWithContext
-//@   props C01 C02 C10 C13 C09 C06 C11
+//@   props C01 C02 C10 C13 C09 C06 C11 C08
 //@   binds ctx value
 //@   scope ctx err hasValue mu observerIndex observers s status value
-//@   ensures [one-critical-section|C02,C10,C13,C06] count(lock.mu) == 1
+//@   ensures [one-critical-section|C08,C02,C10,C13,C06] count(lock.mu) == 1
 //@   track observers.* elem.* hook.* call.NewNotification*
 //@   ensures [open-only-remembers|C01,C10,C09] atlock(status) == 0 ==> atunlock(hasValue) == true && atunlock(value).A == ctx && atunlock(value).B == value && trace()
 //@   ensures [closed-drops|C01,C10,C09] atlock(status) != 0 ==> trace(call.NewNotificationNext(value), hook.OnDroppedNotification(ctx, _))
@@ -271,10 +271,10 @@ package ro
 //@   const bufferSize
 
 //@ func (*replaySubjectImpl).NextWithContext
-//@   props C01 C02 C10 C11 C13 C09 C06
+//@   props C01 C02 C10 C11 C13 C09 C06 C08
 //@   binds s ctx value
 //@   scope bufferSize ctx err mu observerIndex observers s status value values varargs
-//@   ensures [one-critical-section|C02,C10,C13,C06] count(lock.mu) == 1
+//@   ensures [one-critical-section|C08,C02,C10,C13,C06] count(lock.mu) == 1
 //@   requires s.bufferSize >= -1
 //@   inline (*replaySubjectImpl).broadcastNext
 //@   track observers.* elem.* hook.* call.NewNotification*
@@ -312,10 +312,10 @@ package ro
 //@   ensures [a-closed-subject-keeps-its-stored-terminal|C10,C09,C01] atlock(status) != 0 ==> atunlock(status) == atlock(status) && atunlock(err).A == atlock(err).A && atunlock(err).B == atlock(err).B && len(atunlock(values)) == len(atlock(values))
 
 //@ func (*replaySubjectImpl).SubscribeWithContext
-//@   props C01 C02 C03 C10 C11 C13 C14 C09 C06
+//@   props C01 C02 C03 C10 C11 C13 C14 C09 C06 C08 C07
 //@   binds subscriberCtx destination
 //@   scope bufferSize destination err index mu observerIndex observers s status subscriberCtx values
-//@   ensures [one-critical-section|C02,C10,C11,C13,C09,C06] count(lock.mu) == 1 && heldat(mu, sub.ANY) && heldat(mu, loop.ANY)
+//@   ensures [one-critical-section|C08,C07,C02,C10,C11,C13,C09,C06] count(lock.mu) == 1 && heldat(mu, sub.ANY) && heldat(mu, loop.ANY)
 //@   alias sub=NewSubscriber()
 //@   track call.NewSubscriber observers.* NewSubscriber().* loop.*
 //@   ensures [open-replays-buffer-then-registers|C01,C02,C03,C10,C14,C09,C06] atlock(status) == 0 ==> trace(call.NewSubscriber(destination), loop.L0, observers.Store(_, res(call.NewSubscriber)), sub.Add(_))
@@ -362,10 +362,10 @@ package ro
 //@   const bufferSize
 
 //@ func (*unicastSubjectImpl).NextWithContext
-//@   props C01 C02 C10 C13 C06 C09
+//@   props C01 C02 C10 C13 C06 C09 C08
 //@   binds s ctx value
 //@   scope bufferSize ctx err mu observer s status value values varargs
-//@   ensures [one-critical-section|C02,C10,C13,C06] count(lock.mu) == 1
+//@   ensures [one-critical-section|C08,C02,C10,C13,C06] count(lock.mu) == 1
 //@   requires s.bufferSize >= -1
 //@   track observer.* hook.* call.NewNotification*
 //@   ensures [open-with-subscriber-delivers|C01,C10,C09] atlock(status) == 0 && atlock(observer) != nil ==> trace(observer.NextWithContext(ctx, value)) && len(atunlock(values)) == len(atlock(values))
